@@ -5,23 +5,23 @@ PENDING_REASON = {}
 
 PROPS = {
     "C13": {
-        "streams": [],
+        "streams": [("reversal", 3000, 40000)],
         "level_text": "Proof: the per-entry code switch of File.Reversal is re-extracted from reversal.go on every run and the theorem reversal_code_map (direction flipped within the account type, standard result, flags describe the new direction, involution) is re-checked over it by kernel evaluation for all 28 codes of the domain; batch-level theorems (entries otherwise unchanged, totals swapped, description/date, service class = f(new directions), reversing twice restores codes) are proved for every batch over that domain. Validity of the re-tabulated file is searched by the oracle on the real code.",
         "level_note": "Trusted: Lean kernel; gofacts extraction of the switch (a wrong extraction would have to coincide with the model expectation; the oracle exercises the real switch); the batch model mirrors the loop body of File.Reversal by hand. File.Create/validation of the result is not part of the C13 theorems (oracle only).",
         "explanation": "Reversal's per-entry switch is re-extracted from reversal.go on every run and the code-map theorem is re-proved over it by kernel evaluation; batch-level theorems are structural.",
         "assumptions": ["File.Create/validation of the reversed file are covered by the oracle (and by C05's theorems), not by the C13 theorems"],
     },
     "C01": {
-        "props_modules": ["Ach.Props.Layouts", "Ach.Props.C01"],
-        "streams": [("field", 20000, 200000), ("record", 13000, 130000)],
+        "props_modules": ["Ach.Props.Layouts", "Ach.Props.Dispatch", "Ach.Props.C01"],
+        "streams": [("field", 20000, 200000), ("record", 13000, 130000), ("reader", 2000, 40000)],
         "allow_nolayout": False,
-        "level_text": "Proof (record and line level): for every record type the layout extracted from Parse/String on every run is shown to line up (26 per-record obligations, kernel evaluation); for every such layout, parsing the rendering of in-width field values returns them and re-rendering reproduces the text (generic theorems, all values, no bound); any 94-column line read by the Reader is a fixed point of write∘read for stable converter pairs; LF/CRLF/CR/blank-line/unbroken-stream layouts and trailing-blank trimming give the same records for all contents. The file-level composition (record-order grammar, validators) is covered by the oracle search on the real code.",
-        "level_note": "Trusted: Lean kernel; gofacts layout extraction (tied behaviourally by the record correspondence stream: real Parse+String vs model on random and fixture lines, every record type); Go strings/strconv/time.Parse modelled (field stream). Custom XField methods are modelled on the stated domain (no IAT corrected data, non-empty creation date/time, ENR AUTOENROLL effective date) and pinned by body hash. File-level grammar and validators: oracle only.",
+        "level_text": "Proof (record and line level): for every record type the layout extracted from Parse/String on every run is shown to line up (26 per-record obligations, kernel evaluation); for every such layout, parsing the rendering of in-width field values returns them and re-rendering reproduces the text (generic theorems, all values, no bound); any 94-column line read by the Reader is a fixed point of write∘read for stable converter pairs; LF/CRLF/CR/blank-line/unbroken-stream layouts and trailing-blank trimming give the same records for all contents. File level: on the model of the Reader's record dispatcher (parseLine and everything it calls, as a state machine over abstract records) reading what the Writer emits - file header, standard/ADV batches, IAT batches, each entry followed by its addenda in slot order, controls, any number of filler records - rebuilds exactly the same tree with every record in the place it was written from, and the emission order is the Writer model's (Ach.Props.Dispatch). Record-level validators are inputs of that model; the oracle searches the real code.",
+        "level_note": "Trusted: Lean kernel; gofacts layout extraction (tied behaviourally by the record correspondence stream: real Parse+String vs model on random and fixture lines, every record type); Go strings/strconv/time.Parse modelled (field stream). Custom XField methods are modelled on the stated domain (no IAT corrected data, non-empty creation date/time, ENR AUTOENROLL effective date) and pinned by body hash. The dispatcher model is tied by the reader correspondence stream (valid, mutated, truncated, concatenated files and arbitrary record sequences through the real Reader vs classify+read of the model: tree of line numbers and error classes in order) and by pins of every parse* function; outcomes of Validate() calls are inputs of the model (supplied from the real code in the stream).",
         "assumptions": ["strings are valid UTF-8 (List Char); invalid UTF-8 reaches only C06's fuzzing"],
     },
     "C02": {
-        "props_modules": ["Ach.Props.Layouts", "Ach.Props.C02"],
-        "streams": [("record", 13000, 130000), ("write", 2000, 30000)],
+        "props_modules": ["Ach.Props.Layouts", "Ach.Props.Dispatch", "Ach.Props.C02"],
+        "streams": [("record", 13000, 130000), ("write", 2000, 30000), ("reader", 2000, 40000)],
         "level_text": "Proof: (record level) every layout the compiler accepts is exactly 94 columns wide (theorem over all extracted facts), and every record whose field values are within their widths - or that was parsed by the Reader from a 94-column line with stable converter pairs - renders to exactly 94 characters; (file level, on the Writer model of the emission order and padding loop over the file's tree shape) the record count is a multiple of ten, nothing but fewer than ten all-9 records follows the file control, the output is in the grammar FH (BH (ED AD*)* BC)* FC 9* and parses back to the tree, and File.Create's block count / record total equal what is physically written.",
         "level_note": "Trusted: as C01; the Writer model is tied by the write correspondence stream (kinds of the records the real Writer emits vs the model, generated files of every SEC/IAT/ADV, all residues mod 10). Line endings and the per-batch counts in controls are checked by the oracle on the bytes.",
     },
@@ -41,10 +41,10 @@ PROPS = {
         "level_note": "Trusted: Lean kernel; the mask correspondence stream (exhaustive strings up to length 5-6 over a 5-symbol alphabet incl. a 2-byte rune, plus random to field width) ties the model to the real functions through the verif hook; tabwriter/fmt not modelled.",
     },
     "C04": {
-        "props_modules": ["Ach.Props.Layouts", "Ach.Props.C04"],
-        "streams": [("record", 13000, 130000), ("validate", 3000, 40000)],
-        "level_text": "Proof: single-digit tampering of every protected field class is detected on the validation model - routing digits and check digit by the algebra of the 3-7-1 weights (units mod 10; all 8 positions, all replacements), fixed-width decimal fields by injectivity of digit strings, amounts through the batch total, control/header/file-control fields through the equalities validation tests; for every accepted batch/file. Truncation is not proved (Reader end-of-input checks not modelled): the oracle enumerates every truncation offset and every protected digit x 9 replacements per sampled file on the real Reader.",
-        "level_note": "Trusted: validation model of C03 (mirrors Batch.verify/File.ValidateWith), layout facts (which columns are which field). Truncation clause: oracle only.",
+        "props_modules": ["Ach.Props.Layouts", "Ach.Props.Dispatch", "Ach.Props.C04"],
+        "streams": [("record", 13000, 130000), ("validate", 3000, 40000), ("reader", 2000, 40000)],
+        "level_text": "Proof: single-digit tampering of every protected field class is detected on the validation model - routing digits and check digit by the algebra of the 3-7-1 weights (units mod 10; all 8 positions, all replacements), fixed-width decimal fields by injectivity of digit strings, amounts through the batch total, control/header/file-control fields through the equalities validation tests; for every accepted batch/file. Truncation, on the model of the Reader's record dispatcher and end-of-input checks: a text cut anywhere before the file control record (at a record boundary or inside a record) holds no file control record and is rejected; cut inside the file control record it reads as the same tree with the cut control, which validation refuses unless every integrity field still has its value (a cut at or before the entry/addenda count always changes that count); cut inside the blocking filler it is the same file or is refused. The oracle also enumerates every truncation offset and every protected digit x 9 replacements per sampled file on the real Reader.",
+        "level_note": "Trusted: validation model of C03 (mirrors Batch.verify/File.ValidateWith), layout facts (which columns are which field); dispatcher model tied by the reader correspondence stream and parse* body pins; Validate() outcomes are inputs of the dispatcher model. The step from a cut inside a record to the abstract record (first column survives; fields after the cut are blank) is by the layout facts, not a theorem over bytes.",
     },
     "C06": {
         "props_modules": ["Ach.Props.C06"],
@@ -58,14 +58,14 @@ PROPS = {
         "level_note": "Trusted: encoding/json rules as restated; setBatchesFromJSON's CTX/ATX re-inference is not modelled (oracle found a defect there, known finding).",
     },
     "C08": {
-        "streams": [],
+        "streams": [("merge", 2000, 30000)],
         "level_text": "Proof: on the model of outFile.add/pickOutFile/findOutBatch/ordered-map Set and convertToFiles, for every list of files (any order, repeats, colliding traces) the multiset of (route, header key, entry) triples is conserved, any permutation of the inputs gives the same multiset, out-files have pairwise distinct routes and hold only their route's entries, and convertToFiles writes each route's entries in order, each into exactly one output batch, for every limit.",
-        "level_note": "Trusted: abstraction of entries/headers to keys (BatchHeader.Equal's fields; route = origin,destination); merge functions pinned by body hash; behaviour searched by the oracle on the real MergeFiles (multiset comparison, all permutations of <= 4 files).",
+        "level_note": "Trusted: abstraction of entries/headers to keys (BatchHeader.Equal's fields; route = origin,destination); merge functions pinned by body hash; the merge correspondence stream runs the real MergeFilesWith and the model (addFiles, convert) on the same abstracted inputs (1-5 files, shared and distinct routes, equal headers, colliding traces, ADV/IAT batches, binding and non-binding MaxLines/MaxDollarAmount incl. 0, negative and above the Nacha limit) and compares which entry lands in which batch of which output file; behaviour also searched by the oracle on the real MergeFiles (multiset comparison, all permutations of <= 4 files).",
     },
     "C09": {
-        "streams": [],
+        "streams": [("merge", 2000, 30000)],
         "level_text": "Proof: loop invariant of convertToFiles relating the running line counter to the real size of the file being assembled gives: every written file has at most MaxLines records unless it holds a single entry, for every state and every MaxLines (0 or >= 2); accumulated batches stay strictly sorted by trace with unique traces; outputs are consecutive runs of those. Validity of outputs = C05 on each batch; dollar limit and one-file-per-route when unlimited: oracle (limits swept at size-1/size/size+1 and every boundary).",
-        "level_note": "Trusted: as C08. Dollar bound not yet proved (same invariant shape).",
+        "level_note": "Trusted: as C08 (same model, same merge correspondence stream). Dollar bound not yet proved (same invariant shape).",
     },
     "C10": {
         "race": True,
@@ -74,12 +74,12 @@ PROPS = {
         "level_note": "Trusted: channel/context/errgroup/WaitGroup contracts as modelled; gofacts Pipeline facts; the walk is tied by the pipeline correspondence stream (real MergeDir over fstest.MapFS with a recording acceptor vs the model).",
     },
     "C11": {
-        "streams": [],
+        "streams": [("segment", 3000, 40000)],
         "level_text": "Proof (standard batches): segment's credit and debit outputs together are a permutation of the input's entries, each side holds only its direction, using the regenerated case lists of segmentFileBatchAddEntry (disjoint, covering the standard codes); the numbering rule of File.Create and the exact condition under which the outputs' batch numbers validate, with the D8 counterexample proved on the model. IAT/ADV, Create/Validate of outputs, identification fields: oracle.",
         "level_note": "Trusted: model of segmentFileBatches/File.Create numbering; lists from gofacts.",
     },
     "C12": {
-        "streams": [],
+        "streams": [("flatten", 3000, 40000)],
         "level_text": "Proof: on the model of Flatten's merge loop, for every processing order (unstable sort): entries conserved (permutation), two groups with equal header signatures always share a trace number, and flattening the result again (any order) changes nothing. Flatten functions pinned by body hash.",
         "level_note": "Trusted: header signature abstracted to a key (the real one is the first 87 BYTES of the rendered header: the oracle found that a multi-byte character shifts the cut - known finding); Copy()'s pointer sharing, Create of merged batches (C05) not modelled.",
     },
@@ -99,7 +99,7 @@ PROPS = {
         "level_note": "Trusted: the stated library contracts (bufio, io.ReadFull, MultiReader, x/net charset v0.39.0); tied by the io correspondence stream (real Writer/Reader over fault injectors vs model, every mode).",
     },
     "C17": {
-        "streams": [],
+        "streams": [("server", 8000, 100000)],
         "level_text": "Proof: the HTTP handlers modelled as a state machine over a map id -> file with library calls as uninterpreted functions; refinement to the abstract map for every request sequence; the property's clauses as corollaries (GET returns the stored file, contents = writer output, validate/build/flatten/segment/batch endpoints = the library call, DELETE then not found, duplicate create refused and harmless, key isolation); 67 server functions pinned by body hash. Deviations of the real server from a faithful store are stated as theorems about the model (rejected create is still stored; read-like requests write back; contents failures answer 200) and checked by the oracle.",
         "level_note": "Trusted: HTTP parsing, mux, go-kit plumbing, JSON encoding not modelled; files have value semantics in the model (aliasing between stored files is outside it).",
     },
